@@ -712,7 +712,33 @@ def case_order_log(case, col=None):
         raise Violation(f"ordering_ignores_logarithmic_map:{op}", f"Q({case['x']},{ua}) {op} Q({case['y']},{ub}) is {got}; the linear values are {la!r} and {lb!r}")
 
 
+def case_compare_number(case, col=None):
+    """comparing an array quantity in a dimensionless-but-not-unitless unit (dB, Np, percent, degree ...) with a plain number reads the operand, it does
+    not rewrite it: the array and the unit are what they were and the same comparison gives the same answer again"""
+    import operator
+
+    import numpy as np
+
+    ureg = registry(False, "float")
+    u, op = case["unit"], case["op"]
+    if col is not None:
+        col.case(("cn", u, op, str(case["n"])), True, sample=case, cls="compare_number")
+    q = ureg.Quantity(np.array([3.0, 13.0, 23.0]), u)
+    keep = q.magnitude.copy()
+    f = getattr(operator, op)
+    r1 = attempt(f, q, case["n"])
+    if not np.array_equal(q.magnitude, keep) or dict(q._units) != dict(ureg.Quantity(1.0, u)._units):
+        raise Violation(f"comparison_modified_operand:{op}", f"Q([3 13 23],{u}) {op} {case['n']!r}: the operand is now {q!r}")
+    r2 = attempt(f, q, case["n"])
+    if r1[0] != r2[0] or (r1[0] == "ok" and not np.array_equal(np.asarray(r1[1]), np.asarray(r2[1]))):
+        raise Violation(f"same_comparison_twice_differs:{op}", f"Q([3 13 23],{u}) {op} {case['n']!r}: first {r1[1]!r}, then {r2[1]!r}")
+
+
 def run_order(task, tier, seed, col):
+    for u_ in ("decibel", "neper", "octave", "percent", "degree", "meter / kilometer", "dimensionless"):
+        for op_ in ("lt", "le", "gt", "ge", "eq", "ne"):
+            for n_ in (15.0, 0, 2):
+                col.run_case(lambda c: case_compare_number(c, col), {"unit": u_, "op": op_, "n": n_})
     from .c03 import CMP_OPS, TEMP_UNITS, case_offsetcmp
 
     zeros = sorted({o for _, o in TEMP_UNITS.values()})
@@ -736,7 +762,7 @@ def replay(sub, case):
     if sub == "order":
         from .c03 import case_offsetcmp
 
-        return case_offsetcmp(case) if "Ta" in case else case_order_log(case)
+        return case_offsetcmp(case) if "Ta" in case else (case_compare_number(case) if "n" in case else case_order_log(case))
     if sub == "convert" and set(case) == {"unit"}:
         return case_scale(case)
     if sub == "muldiv":
